@@ -100,3 +100,20 @@ for i in range(60):
 for z in range(0, 32):
     S = int.from_bytes(bytes(z) + rb(32 - z - 1) + b"\x01", "little")
     out(op="interleave", S=le(S).hex(), K=interleave(S).hex())
+# primality of the announced-group moduli used by C03/C04 (Miller-Rabin with 40 fixed bases)
+def is_prime(n):
+    if n < 2: return False
+    for p in (2, 3, 5, 7, 11, 13, 17, 19, 23, 29, 31, 37):
+        if n % p == 0: return n == p
+    d, s = n - 1, 0
+    while d % 2 == 0: d //= 2; s += 1
+    for a in range(2, 42):
+        x = pow(a, d, n)
+        if x in (1, n - 1): continue
+        for _ in range(s - 1):
+            x = x * x % n
+            if x == n - 1: break
+        else: return False
+    return True
+for m in [N, 2**255 - 19, 2**256 - 2**32 - 977, 2**256 - 2**224 + 2**192 + 2**96 - 1, 2**127 - 1, 2**61 - 1, 2**31 - 1, 65537, 65521, 257, 251, 13, 11, 7, 5, 3]:
+    out(op="prime", m=hx(m), prime=is_prime(m))
